@@ -483,7 +483,7 @@ fn resolve(pat: &Pat, a: u64, now: u64, n: u64, t: u64, pending_times: &dyn Fn(u
     };
     let raw = raw.max(now);
     // keep the bucket scan of a single fetch bounded
-    let reach = if *pat == Pat::MegaFar { t.saturating_mul(6_000_000) } else { max_delta(t) };
+    let reach = if *pat == Pat::MegaFar { t.saturating_mul(3_000_000) } else { max_delta(t) };
     let cap = now.saturating_add(reach).min(u64::MAX / 4);
     raw.min(cap).max(now)
 }
@@ -859,6 +859,18 @@ fn run_ops<P: Payload>(prog: &FesProgram, prop: &str, n: usize, t: u64, page: us
         if step % inv_every == 0 || step == total_ops {
             match q.verif_check_invariants() {
                 Ok(snap) => {
+                    // the scan window must stay on the bucket grid, else events near a bucket boundary are taken a lap late
+                    if want_c01 {
+                        let (t0, t1) = (snap.t0.as_nanos(), snap.t1.as_nanos());
+                        let tw = u128::from(t);
+                        let aligned = t1 == t0 + tw && t0 % tw == 0 && snap.head as u128 == (t0 / tw) % (n as u128);
+                        let covers = t0 <= snap.t_current.as_nanos() && snap.t_current.as_nanos() <= t1;
+                        if !aligned || !covers {
+                            bail!(Violation::new("C01", "structure", format!(
+                                "after op #{step}: scan window [{t0}, {t1}) ns with head bucket {} is off the bucket grid (width {tw} ns, {n} buckets) or does not cover the queue time {} ns",
+                                snap.head, snap.t_current.as_nanos())));
+                        }
+                    }
                     // abstract state: occupancy per bucket (capped), zero len, head offset
                     let mut sh = TraceHash::default();
                     sh.push(snap.zero.len().min(3) as u64);
@@ -978,7 +990,7 @@ fn run_ops<P: Payload>(prog: &FesProgram, prop: &str, n: usize, t: u64, page: us
 pub fn generate(prop: &str, rng: &mut Rng, tier: Tier) -> FesProgram {
     const NS: [usize; 10] = [1, 2, 3, 4, 5, 8, 16, 64, 256, 1028];
     const NW: [u32; 10] = [10, 12, 10, 12, 8, 10, 8, 6, 3, 3];
-    const TS: [u64; 8] = [1, 2, 7, 1_000, 1_000_000, 2_500_000, 1_000_000_000, 3_000_000_000];
+    const TS: [u64; 10] = [1, 2, 7, 1_000, 1_000_000, 2_500_000, 700_000_000, 1_000_000_000, 2_300_000_000, 3_000_000_000];
     let n = NS[rng.weighted(&NW)];
     let t_ns = *rng.pick(&TS);
 
@@ -1068,9 +1080,9 @@ pub fn generate(prop: &str, rng: &mut Rng, tier: Tier) -> FesProgram {
         }
     }
     // rarely: one event hundreds of "years" ahead, followed by ordinary traffic around it
-    if prop == "C01" && rng.chance(1, 300) && !ops.is_empty() {
+    if prop == "C01" && rng.chance(1, 100) && !ops.is_empty() {
         let pos = rng.usize(ops.len());
-        ops.insert(pos, FesOp::Add { pat: Pat::MegaFar, a: rng.below(t_ns.saturating_mul(6_000_000).max(1)) });
+        ops.insert(pos, FesOp::Add { pat: Pat::MegaFar, a: rng.below(t_ns.saturating_mul(3_000_000).max(1)) });
     }
     let drain = if prop == "C15" { rng.chance(1, 2) } else { rng.chance(9, 10) };
     let inv_every = if n <= 64 { 1 } else { 1 + (n as u32 / 64) };
